@@ -8,6 +8,7 @@ import (
 	"os"
 	"os/exec"
 	"reflect"
+	"regexp"
 	"sort"
 	"strings"
 	"time"
@@ -50,6 +51,9 @@ func init() {
 	}
 }
 
+// hollow matches the dump of a node without a value that still has a child.
+var hollow = regexp.MustCompile(`Value:nil Children:\[(nil )*&`)
+
 func globalsDump() string {
 	var sb strings.Builder
 	for i, n := range gNames {
@@ -68,6 +72,16 @@ func main() {
 	}
 	u0 := universe()
 	trees := qt.Reach(u0, ev.Pick(r, 4, 5))
+	if r.Quick() {
+		// plus the trees of the next level that hold a hollow inner node (no value, but children): only a removal of
+		// an inner node's value after a removal below it produces one, which takes five operations
+		n4 := len(qt.Reach(u0, 4))
+		for _, h := range qt.Reach(u0, 5)[n4:] {
+			if hollow.MatchString(qt.Dump(u0.Build(h))) {
+				trees = append(trees, h)
+			}
+		}
+	}
 	r.Count("tree_structures", int64(len(trees)))
 	m0 := menu()
 
